@@ -113,11 +113,13 @@ CLAIMED = {
             "under the common handler guard a communication error yields the device-error code and raises the "
             "repair flag, a time-out yields the same code and leaves the flag; with a repair pending and a failing "
             "connect the request gets the device-error code, nothing reaches the device, and the flag stays up "
-            "(reconnect_failure_retries, any number of attempts). The oracle Spec.C11.c11 is evaluated on the "
+            "(reconnect_failure_retries, any number of attempts); with a repair pending the trace of any guarded "
+            "command is: disconnect, then the complete bring-up (which starts by re-opening the connection), and "
+            "the command's own events follow only if the bring-up succeeded - otherwise nothing of the command is "
+            "sent (repair_precedes_command, bringup_opens_first; every device behaviour). The oracle Spec.C11.c11 is evaluated on the "
             "implementation for every fault position x kind x command x mode and on repair follow-ups / real "
             "two-request histories.",
-            "partial: 'bring-up APDUs precede the command APDU' is checked by the oracle on the implementation's "
-            "traces and by correspondence, not stated as a theorem; TCP-transport faults are out of scope"),
+            "TCP-transport faults are out of scope (the property's quantifier is over the HID link)"),
     "C12": ("Lean theorems: the server class instantiated by comm/server.py (extracted from the source by the "
             "translator on every run) is socketserver.TCPServer, i.e. the `sequential` kind of the scheduler model, "
             "and its handler class processes the request inline and starts no thread / process / task on the way "
